@@ -116,6 +116,11 @@ Definition model_site (d : mdomain) (s : sites) (names : list string) (kind t r 
   else if String.eqb kind "forall_eff" then
     match m_succ d s ("eff" +++ r) (all_m s "") with
     | Ok st => bit (atom_in ("hit", [obj_of t]) (facts st)) | Err _ => "E"%char end
+  else if String.eqb kind "joint_eff" then
+    (* joint execution of eff<r> with chkobject: the members' operators get the problem objects; the bits
+       observed are those of eff<r> *)
+    match m_succ d s ("eff" +++ r) (all_m_consts s names "") with
+    | Ok st => bit (atom_in ("hit", [obj_of t]) (facts st)) | Err _ => "E"%char end
   else if String.eqb kind "cforall_pre" then
     (* through the library's pipeline: every (m x) holds, for objects and constants, except for the CONSTANT of type t *)
     match m_app d (pipeline_sites d s) ("chk" +++ r) (all_m_consts s names (const_of t)) with
@@ -211,6 +216,13 @@ Definition known_class (c : case) : bool :=
   | Some s => match s_obs s with [] => false | _ => forallb (fun ko => const_kind (fst ko)) (s_obs s) end
   | None => false
   end.
+
+(* compact literal of a case without sites: the names the tables range over are the section's type names *)
+Definition tc (gs : list group) (tr : list string) (types : obs string) (table edges : string) : case :=
+  let c0 := {| c_groups := gs; c_trailing := tr; c_names := []; c_types := types; c_table := table;
+               c_edges := edges; c_sites := None |} in
+  {| c_groups := gs; c_trailing := tr; c_names := spec_names c0; c_types := types; c_table := table;
+     c_edges := edges; c_sites := None |}.
 
 Definition judge (c : case) : verdict := {| v_agree := agree c; v_ok := spec_ok c; v_known := known_class c |}.
 Definition run (cases : list case) : string := summary judge cases.
